@@ -1,4 +1,5 @@
 import AdaVerif.Gen.Tables
+import AdaVerif.Lemmas.Ipv6
 import AdaVerif.Lemmas.Ipv4
 import AdaVerif.Lemmas.ParseInv
 /-
@@ -67,6 +68,21 @@ theorem dns_length_boundaries :
     verifyDnsLength (List.replicate 63 0x61) = true ∧ verifyDnsLength (List.replicate 64 0x61) = false ∧
     verifyDnsLength (ofStr "a.b.") = true ∧ verifyDnsLength (ofStr "a..b") = false ∧ verifyDnsLength [] = false ∧
     verifyDnsLength (ofStr ".") = false := by decide +kernel
+
+/-- **IPv6 round trip** for every address (eight 16-bit pieces, 2^128 values): the Standard's parser
+    applied to the Standard's serialisation (longest zero run compressed, lower-case hex without leading
+    zeros) returns the address -/
+theorem ipv6_roundtrip (a : List Nat) (ha : a.length = 8) (hb : ∀ x ∈ a, x < 65536) :
+    ipv6Parse (ipv6Serialize a) = some a := V6.ipv6_roundtrip a ha hb
+
+/-- ... and so does the host parser on the bracketed form, for special and non-special URLs alike -/
+theorem ipv6_host_roundtrip (idna : Idna) (a : List Nat) (ha : a.length = 8) (hb : ∀ x ∈ a, x < 65536) (opq : Bool) :
+    hostParse idna (Host.serialize (.ipv6 a)) opq = some (.ipv6 a) := by
+  simp [Host.serialize, hostParse, V6.ipv6_roundtrip a ha hb]
+
+example : ipv6Serialize [0x2001, 0xdb8, 0, 0, 1, 0, 0, 1] = ofStr "2001:db8::1:0:0:1" := by decide +kernel
+example : ipv6Serialize [0, 0, 0, 0, 0, 0, 0, 0] = ofStr "::" := by decide +kernel
+example : ipv6Serialize [1, 0, 0, 0, 0, 0, 0, 0] = ofStr "1::" := by decide +kernel
 
 /-! ### the host code-point tables (regenerated from src/unicode.cpp on every run) -/
 
